@@ -21,6 +21,7 @@ mod project;
 mod render;
 mod stages;
 mod tsread;
+mod twin;
 mod typegen;
 mod util;
 mod vlq;
@@ -60,6 +61,7 @@ fn main() {
         "loader-child" => loader::run_child(rest),
         "tsread" => tsread::run(rest),
         "typegen" => typegen::run(rest),
+        "twin" => twin::run(rest),
         "vlq" => vlq::run(rest),
         other => {
             eprintln!("unknown command {other}");
